@@ -462,3 +462,14 @@ def eval_all(worker, stmts, prelude=(), fresh_each=False, fuel=1_000_000, jid="j
         else:
             rest = rest[len(evs):]
     return out[:len(stmts)]
+
+
+def global_names(worker):
+    """List of {"name","kind","prec","assoc"} of the interpreter's global environment (retried: the very
+    first request to a freshly started worker can be lost if the worker is still being restarted)."""
+    for _ in range(4):
+        r = worker.run({"id": "n", "kind": "names"})
+        names = (r.get("result") or {}).get("names")
+        if names:
+            return names
+    raise RuntimeError("harness did not answer the names request")
